@@ -400,7 +400,7 @@ func (x *Exec) jsonConvert0(v Value, st, dt types.Type, fold bool) (Value, bool)
 					return nil, false
 				}
 				if t.IsConc() {
-					if f, ok := t.C.(float64); ok && f == math.Trunc(f) && f >= -9.2e18 && f <= 9.2e18 {
+					if f, ok := t.C.(float64); ok && f == math.Trunc(f) && f >= -9223372036854775808.0 && f < 9223372036854775808.0 {
 						return x.fit(mkInt(int64(f)), dt), true
 					}
 				}
